@@ -672,6 +672,15 @@ def gen_inf_case(rng, plain=False, extra=None):
         body = ('+', body, t)
     if not E.mentions(body, {'x'}):
         body = ('+', body, ('*', E.C(G.coef(rng)), rng.choice(s['x'])))
+    # a number (or a frozen value) on the LEFT of a minus: `c - x1*x2`, as in `c - x1*x2 >= 0`
+    r_ = rng.random()
+    if r_ < 0.3:
+        body = ('-', E.C(G.coef(rng)), body)
+    elif r_ < 0.4 and not plain and s['p']:
+        ops.append(('inert', rng.choice(s['p'])))
+        body = ('-', ('off', len(ops) - 1), body)
+    elif r_ < 0.5:
+        body = ('-', body, E.C(G.coef(rng)))
     bound = E.C(G.coef(rng))
     if s['p'] and rng.random() < 0.3 and not plain:
         ops.append(('inert', rng.choice(s['p'])))
@@ -1131,6 +1140,84 @@ class MultiBuilt:
     pass
 
 
+TREE_EDITS = ['child_subject_to', 'child_add_objective', 'child_set_T', 'child_clear_constraints', 'add_clone', 'add_direct_stage']
+
+
+def apply_tree_edit(mb, edit, pick, rockit):
+    """one specification change made through a CHILD stage object (or by adding a stage) of a built tree"""
+    import casadi as ca
+    i = pick % len(mb.bs)
+    b = mb.bs[i]
+    st = b.ocp
+    x0 = b.states[0][0]
+    if edit == 'child_subject_to':
+        st.subject_to(x0 <= 123.5)
+    elif edit == 'child_add_objective':
+        st.add_objective(3 * st.at_tf(x0) ** 2)
+    elif edit == 'child_set_T':
+        if b.desc['T'][0] != 'num':
+            st.subject_to(x0 <= 77.25)
+        else:
+            st.set_T(float(b.desc['T'][1]) * 1.5)
+    elif edit == 'child_clear_constraints':
+        st.clear_constraints()
+        st.subject_to(st.at_t0(x0) == 0.5)
+    elif edit == 'add_clone':
+        if mb.templates:
+            mb.ocp.stage(mb.templates[0].ocp, t0=0.25, T=1.75)
+        else:
+            st.subject_to(x0 >= -321.0)
+    elif edit == 'add_direct_stage':
+        s2 = mb.ocp.stage(t0=0, T=2)
+        y = s2.state()
+        w = s2.control()
+        s2.set_der(y, -y + w)
+        s2.add_objective(s2.integral(y ** 2 + w ** 2))
+        s2.subject_to(s2.at_t0(y) == 1)
+        s2.method(rockit.MultipleShooting(N=2, M=1, intg='rk'))
+
+
+def tree_history_slice(chk, name):
+    """solve (or query); ONE change made through a child stage object or by adding a stage; solve — against the same calls made
+    before the first transcription (both through the real rockit): the NLP the second solve works on must be the same"""
+    rockit = B.import_rockit()
+    n = 6 if chk.tier == 'quick' else 60
+    for it in range(n):
+        md = gen_multi(chk.rng, {'features': {'qstate': 0.2, 'p': 0.3, 'pc': 0.2, 'pcp': 0.0, 'v': 0.3, 'vc': 0.2, 'vcp': 0.0, 'time': 0.6, 'dae': 0.0}})
+        if it % 3 == 1 and not md['templates']:
+            md = gen_multi(chk.rng)
+        edit = TREE_EDITS[it % len(TREE_EDITS)]
+        pick = chk.rng.randrange(8)
+        try:
+            evolved = build_multi(copy.deepcopy(md), transcribe=False)
+            fresh = build_multi(copy.deepcopy(md), transcribe=False)
+            with B.quiet():
+                if it % 2 == 0:
+                    try:
+                        evolved.ocp.solve_limited()
+                    except Exception:
+                        pass
+                else:
+                    evolved.ocp._transcribed
+                apply_tree_edit(evolved, edit, pick, rockit)
+                apply_tree_edit(fresh, edit, pick, rockit)
+            msg = nlp_compare_ocps(evolved.ocp, fresh.ocp, chk.rng, "tree after 'transcribe; %s; transcribe' vs the same calls before the first transcription" % edit)
+        except (ZeroDivisionError, OverflowError):
+            continue
+        except Exception as ex:
+            chk.slice_ok[name] = False
+            chk.violation("stage-tree history '%s' raised: %s: %s" % (edit, type(ex).__name__, str(ex)[:250].replace("\n", " ")), {"md": md, "edit": edit},
+                          {"kind": "tree-history-exception", "edit": edit})
+            return
+        chk.evaluations += 1
+        chk.count("tree-history:" + edit)
+        chk.signatures.add("tree-history-%d-%s" % (it, edit))
+        if msg:
+            chk.slice_ok[name] = False
+            chk.violation(msg, {"md": md, "edit": edit, "pick": pick}, {"kind": "tree-history", "edit": edit})
+            return
+
+
 def declared_nx(opti):
     """number of decision variables DECLARED on the Opti stack (opti.nx counts only those that occur in f or g)"""
     import casadi as ca
@@ -1298,7 +1385,7 @@ def compare_multi(md, mb, driver, rng, R=2):
 @register
 class C12(Check):
     pid = "C12"
-    slices = ["tree-nlp-vs-model", "template-unchanged", "solution-readback"]
+    slices = ["tree-nlp-vs-model", "template-unchanged", "solution-readback", "tree-histories"]
     uses_generated = True
 
     def explanation(self):
@@ -1322,6 +1409,10 @@ class C12(Check):
     def correspondence(self):
         self.tree_slice()
         self.readback_slice()
+        self.history_slice()
+
+    def history_slice(self):
+        tree_history_slice(self, "tree-histories")
 
     def features(self, md, kind):
         return {"kind": kind, "clones": sum(1 for s in md['stages'] if s.get('clone_of') is not None),
@@ -1618,6 +1709,13 @@ class C18(Check):
                 ocp2 = rockit.Ocp.load(fname)
             except Exception as ex:
                 return "Ocp.load raised (%s): %s: %s" % (position, type(ex).__name__, str(ex)[:200].replace("\n", " "))
+        # the loaded object must be usable through its own accessors like the original: the same calls on it and on the reference
+        try:
+            with B.quiet():
+                for o in (ocp2, ref):
+                    self.post_load_edits(o)
+        except Exception as ex:
+            return "the loaded OCP refused a call on its own symbols (%s): %s: %s" % (position, type(ex).__name__, str(ex)[:200].replace("\n", " "))
         try:
             msg = nlp_compare_ocps(ocp2, ref, self.rng, "loaded OCP vs the same problem never saved (%s)" % position)
         except Exception as ex:
@@ -1632,8 +1730,11 @@ class C18(Check):
         if acc2 != acc_before:
             diff = [k for k in acc_before if acc_before[k] != acc2.get(k)]
             return "accessors of the loaded OCP differ from the original's in %s: %s vs %s" % (diff, {k: acc2.get(k) for k in diff}, {k: acc_before[k] for k in diff})
-        # the original is not damaged: same NLP as the reference, and it still solves
+        # the original is not damaged: same NLP as the reference (which received the post-load calls: make them on the original too),
+        # and it still solves
         try:
+            with B.quiet():
+                self.post_load_edits(ocp)
             msg = nlp_compare_ocps(ocp, ref, self.rng, "original after save vs the same problem never saved (%s)" % position)
         except Exception as ex:
             return "re-transcribing the original after save raised (%s): %s: %s" % (position, type(ex).__name__, str(ex)[:200].replace("\n", " "))
@@ -1648,6 +1749,24 @@ class C18(Check):
                     self.slice_ok["original-undamaged"] = False
                     return "solving the original after save raised: %s: %s" % (type(ex).__name__, str(ex)[:200])
         return None
+
+    def post_load_edits(self, o):
+        """calls that go through membership tests of the accessor lists (set_value on a parameter of each kind, set_initial on a
+        state and a control), with values that differ from the ones saved; applied identically to the loaded OCP and the reference"""
+        import casadi as ca
+        stages = [o] + list(o._stages)
+        for st in stages:
+            for gk, plist in list(st.parameters.items()):
+                for p_ in list(plist)[:1]:
+                    cols = {'': 1, 'control': getattr(st._method, 'N', 1), 'control+': getattr(st._method, 'N', 1) + 1}.get(gk)
+                    if cols is None:
+                        continue
+                    val = ca.DM.ones(p_.numel(), cols) * 1.25 if gk else ca.DM.ones(p_.numel(), 1) * 1.25
+                    st.set_value(p_, val)
+            for x_ in list(st.states)[:1]:
+                st.set_initial(x_, ca.DM.ones(x_.numel(), 1) * 0.75)
+            for u_ in list(st.controls)[:1]:
+                st.set_initial(u_, ca.DM.ones(u_.numel(), 1) * (-0.5))
 
     POSITIONS = ['before', 'after-transcribe', 'after-solve', 'after-solve-edit']
 
